@@ -61,7 +61,7 @@ func RandomTree(r *rand.Rand, o genOpts) model.Tree {
 	var t model.Tree
 	dirs := []string{""}
 	used := map[string]bool{}
-	var files []int
+	var files, specials []int
 	group := 100
 	for tries := 0; len(t) < n && tries < n*20; tries++ {
 		d := dirs[r.Intn(len(dirs))]
@@ -87,7 +87,7 @@ func RandomTree(r *rand.Rand, o genOpts) model.Tree {
 				Uid: genIDs[r.Intn(len(genIDs))], Gid: genIDs[r.Intn(len(genIDs))], Mtime: uniqueMtime()}
 			dirs = append(dirs, p)
 		case k < 77:
-			tg := []string{"a", "/abs/target", "../x", "dangling", ".", "a/b/c", "\xc3\xa9"}[r.Intn(7)]
+			tg := []string{"a", "/abs/target", "../x", "dangling", ".", "a/b/c", "\xc3\xa9", "sub/", "./a", "a//b", "a/../b", "../../", "/"}[r.Intn(13)]
 			e = model.Entry{Type: "symlink", Perm: 0777, Link: tg, Uid: genIDs[r.Intn(len(genIDs))], Gid: genIDs[r.Intn(len(genIDs))], Mtime: uniqueMtime()}
 		case k < 90 && o.Links && len(files) > 0:
 			// hard link to an existing regular file
@@ -98,6 +98,14 @@ func RandomTree(r *rand.Rand, o genOpts) model.Tree {
 			}
 			e = t[j]
 			e.Xattrs = t[j].Xattrs
+		case k < 92 && o.Special && o.Links && len(specials) > 0 && r.Intn(3) == 0:
+			// hard link to an existing fifo / device node
+			j := specials[r.Intn(len(specials))]
+			if t[j].Group == 0 {
+				group++
+				t[j].Group = group
+			}
+			e = t[j]
 		case k < 94 && o.Special:
 			e = model.Entry{Type: "fifo", Perm: 0644, Uid: genIDs[r.Intn(len(genIDs))], Gid: genIDs[r.Intn(len(genIDs))], Mtime: uniqueMtime()}
 		case k < 100 && o.Special:
@@ -105,7 +113,20 @@ func RandomTree(r *rand.Rand, o genOpts) model.Tree {
 			if r.Intn(2) == 0 {
 				ty = "blk"
 			}
-			e = model.Entry{Type: ty, Perm: 0660, Devmajor: int64(1 + r.Intn(250)), Devminor: int64(r.Intn(300)),
+			minor := int64(r.Intn(300))
+			switch r.Intn(6) {
+			case 0:
+				minor = 65536 + int64(r.Intn(1000)) // beyond 16 bits
+			case 1:
+				minor = 1<<19 + int64(r.Intn(7)) // the top of the 20-bit range
+			case 2:
+				minor = 256 + int64(r.Intn(3840)) // beyond 8 bits
+			}
+			major := int64(1 + r.Intn(250))
+			if r.Intn(5) == 0 {
+				major = 256 + int64(r.Intn(3000)) // beyond 8 bits
+			}
+			e = model.Entry{Type: ty, Perm: 0660, Devmajor: major, Devminor: minor,
 				Uid: genIDs[r.Intn(len(genIDs))], Gid: genIDs[r.Intn(len(genIDs))], Mtime: uniqueMtime()}
 		default:
 			e = newFile(r, o)
@@ -119,9 +140,16 @@ func RandomTree(r *rand.Rand, o genOpts) model.Tree {
 			if r.Intn(3) == 0 {
 				e.Xattrs["trusted.t"] = "\x00\x01bin"
 			}
+			if e.Type == "file" && r.Intn(3) == 0 {
+				// file capabilities (cap_net_bind_service+ep): the kernel drops this attribute on every chown
+				e.Xattrs["security.capability"] = "\x01\x00\x00\x02\x00\x04\x00\x00\x00\x00\x00\x00\x00\x00\x00\x00\x00\x00\x00\x00"
+			}
 		}
 		if e.Type == "file" {
 			files = append(files, len(t))
+		}
+		if e.Type == "fifo" || e.Type == "chr" || e.Type == "blk" {
+			specials = append(specials, len(t))
 		}
 		t = append(t, e)
 	}
@@ -259,7 +287,16 @@ func mutateTree(r *rand.Rand, src model.Tree, o genOpts, steps, forceI, forceOp 
 			}
 		case 10: // device renumber
 			if e.Type == "chr" || e.Type == "blk" {
-				e.Devminor++
+				switch r.Intn(4) {
+				case 0:
+					e.Devminor ^= 1 << 16 // only a bit beyond the low 16
+				case 1:
+					e.Devminor ^= 1 << 8 // only a bit beyond the low 8
+				case 2:
+					e.Devmajor ^= 1 << 8
+				default:
+					e.Devminor++
+				}
 				ops = append(ops, "renumber")
 			}
 		case 11: // link regrouping: make e a hard link of another file / break a group
